@@ -13,15 +13,71 @@ Theorem c06_constructor_checkpoint : forall c mi, WF c mi -> forall a,
 Proof. exact init_checkpoint_spec. Qed.
 Print Assumptions c06_constructor_checkpoint.
 
+(* which checkpoints are accepted, for each of the three ways of giving one
+   (upe / spe carry the drop_last / drop_last_batch_size geometry, see
+   c04_samples_per_epoch): start_epoch always; start_update = u iff drop_last and
+   u is a multiple of updates_per_epoch, NotImplementedError otherwise;
+   start_sample = s: AssertionError iff s is not a multiple of batch_size,
+   accepted iff drop_last and s is a multiple of samples_per_epoch,
+   NotImplementedError otherwise *)
+Theorem c06_checkpoint_accepted_iff : forall c mi, WF c mi ->
+  (forall e, init_checkpoint c (StartEpoch e) = Start e (upe c * e) (spe c * e)) /\
+  (forall u, accepted (init_checkpoint c (StartUpdate u)) <-> drop_last c = true /\ exists e, u = upe c * e) /\
+  (forall u, ~ accepted (init_checkpoint c (StartUpdate u)) <-> init_checkpoint c (StartUpdate u) = NotImplemented) /\
+  (forall s, init_checkpoint c (StartSample s) = AssertFail <-> s mod cB c <> 0) /\
+  (forall s, accepted (init_checkpoint c (StartSample s)) <-> drop_last c = true /\ exists e, s = spe c * e) /\
+  (forall s, ~ accepted (init_checkpoint c (StartSample s)) /\ s mod cB c = 0
+             <-> init_checkpoint c (StartSample s) = NotImplemented).
+Proof. exact checkpoint_accepted_iff. Qed.
+Print Assumptions c06_checkpoint_accepted_iff.
+
+(* the three ways are consistent with one another: whatever form is accepted
+   denotes an epoch e and yields exactly the triple start_epoch = e yields
+   (start_update = e * updates_per_epoch, start_sample = e * samples_per_epoch);
+   and with drop_last every epoch can be named in each of the three ways *)
+Theorem c06_checkpoint_forms_agree : forall c mi, WF c mi ->
+  (forall a e u s, init_checkpoint c a = Start e u s -> init_checkpoint c (StartEpoch e) = Start e u s) /\
+  (forall e, drop_last c = true ->
+     init_checkpoint c (StartUpdate (upe c * e)) = init_checkpoint c (StartEpoch e) /\
+     init_checkpoint c (StartSample (spe c * e)) = init_checkpoint c (StartEpoch e)).
+Proof. exact checkpoint_forms_agree. Qed.
+Print Assumptions c06_checkpoint_forms_agree.
+
+(* giving the checkpoint in two or three ways at once is an AssertionError *)
+Theorem c06_checkpoint_two_forms_rejected : forall c se su ss,
+  (2 <= b2n (is_some se) + b2n (is_some su) + b2n (is_some ss))%nat -> checkpoint c se su ss = AssertFail.
+Proof. exact checkpoint_two_forms_rejected. Qed.
+Print Assumptions c06_checkpoint_two_forms_rejected.
+
 (* for every checkpoint k epochs after e0 that lies before the budget (no epoch
    in between reaches it), the uninterrupted run is the k whole epochs followed
    by exactly the resumed run — same indices, same announced epoch numbers, same
-   passes, same stopping point *)
-Theorem c06_resume_is_suffix : forall c mi, WF c mi -> forall k e0 n, no_hit_in c mi e0 k ->
-  run c mi (k + n) (start_state c e0) =
-  option_map (app (epochs_events c mi e0 k)) (run c mi n (start_state c (e0 + Z.of_nat k))).
+   passes, same stopping point.  The side samplers are objects with a state of
+   their own: the resumed run continues with the iteration numbers
+   [pn_after e0 pn k] the uninterrupted run has reached (for samplers that yield
+   the same order every time the numbers are immaterial) *)
+Theorem c06_resume_is_suffix : forall c mi, WF c mi -> forall k e0 pn n, length pn = length (sides c) ->
+  no_hit_in c mi e0 k ->
+  run c mi (k + n) (start_state c e0 pn) =
+  option_map (app (epochs_events c mi e0 pn k))
+             (run c mi n (start_state c (e0 + Z.of_nat k) (pn_after c mi e0 pn k))).
 Proof. exact resume_is_suffix. Qed.
 Print Assumptions c06_resume_is_suffix.
+
+(* "strictly before the budget" in closed form is enough: if the beginning of
+   epoch e0 + k lies strictly before every given budget, no earlier epoch stops the run *)
+Theorem c06_before_budget_no_hit : forall c mi, WF c mi -> forall k e0,
+  before_budget c (e0 + Z.of_nat k) -> no_hit_in c mi e0 k.
+Proof. exact before_no_hit. Qed.
+Print Assumptions c06_before_budget_no_hit.
+
+Theorem c06_resume_before_budget : forall c mi, WF c mi -> forall k e0 pn n, length pn = length (sides c) ->
+  before_budget c (e0 + Z.of_nat k) ->
+  run c mi (k + n) (start_state c e0 pn) =
+  option_map (app (epochs_events c mi e0 pn k))
+             (run c mi n (start_state c (e0 + Z.of_nat k) (pn_after c mi e0 pn k))).
+Proof. exact resume_before_budget. Qed.
+Print Assumptions c06_resume_before_budget.
 
 (* start_epoch = e gives exactly the state resume_is_suffix is about *)
 Theorem c06_start_epoch_state : forall c e,
@@ -29,9 +85,14 @@ Theorem c06_start_epoch_state : forall c e,
 Proof. reflexivity. Qed.
 Print Assumptions c06_start_epoch_state.
 
-Example c06_premises_satisfiable : WF ex_cfg ex_iter /\ no_hit_in ex_cfg ex_iter 0 1.
-Proof. split; [exact ex_wf|]. vm_compute. auto. Qed.
+Example c06_premises_satisfiable :
+  WF ex_cfg ex_iter /\ no_hit_in ex_cfg ex_iter 0 1 /\ before_budget ex_cfg (0 + Z.of_nat 1) /\ drop_last ex_cfg = true.
+Proof.
+  split; [exact ex_wf|]. split; [vm_compute; auto|]. split; [|reflexivity].
+  unfold before_budget. cbn. repeat split; try discriminate; intros ? H; inversion H; reflexivity.
+Qed.
 Example c06_example :
-  run ex_cfg ex_iter 3 (start_state ex_cfg 0) =
-  option_map (app (epochs_events ex_cfg ex_iter 0 1)) (run ex_cfg ex_iter 2 (start_state ex_cfg 1)).
+  run ex_cfg ex_iter 3 (start_state ex_cfg 0 [0; 0]%nat) =
+  option_map (app (epochs_events ex_cfg ex_iter 0 [0; 0]%nat 1))
+             (run ex_cfg ex_iter 2 (start_state ex_cfg 1 (pn_after ex_cfg ex_iter 0 [0; 0]%nat 1))).
 Proof. vm_compute. reflexivity. Qed.
